@@ -99,10 +99,17 @@ class BaseTranslateFilter:
         return escape(str(text))
 
     def _resolve_translations(self, context: RenderContext) -> Translations:
-        return cast(
-            Translations,
-            context.resolve(self.translations_var, self.default_translations),
+        translations = context.resolve(
+            self.translations_var, self.default_translations
         )
+        if not hasattr(translations, "gettext"):
+            # A template variable that happens to be called `translations`.
+            raise LiquidTypeError(
+                f"expected a translations object at {self.translations_var!r}, "
+                f"found {translations.__class__.__name__}",
+                token=None,
+            )
+        return cast(Translations, translations)
 
 
 class Translate(BaseTranslateFilter, TranslatableFilter):
